@@ -578,6 +578,27 @@ func runPath(c PathCase, r *runlog.R) error {
 			ch.GetFields()
 		}
 	}
+	// a configuration that was attached, removed and now gets its former parent attached below it: the tree is
+	// acyclic, whatever the configurations remember of their former places
+	f := ucfg.New()
+	if cfg.SetChild("ring", -1, f, opts...) == nil {
+		cfg.Remove("ring", -1, opts...)
+		if f.SetChild("m", -1, cfg, opts...) == nil {
+			vo := []ucfg.Option{ucfg.PathSep("."), ucfg.VarExp}
+			f.Bool("nope", -1, opts...)
+			f.Path(".")
+			cfg.Path("/")
+			f.PathOf("x", ".")
+			f.Merge(map[string]interface{}{"r": "${m.p}", "r2": "${nope.x}"}, vo...)
+			f.String("r", -1, vo...)
+			f.String("r2", -1, vo...)
+			f.Int("m.p.q", -1, vo...)
+			var fm map[string]interface{}
+			f.Unpack(&fm, vo...)
+			f.FlattenedKeys(vo...)
+			cfg.Child("l", -1, opts...)
+		}
+	}
 	r.NonTrivialIf(hostile && errs > 0)
 	r.ClassIf(errs > 0, "some op returned an error")
 	return nil
